@@ -364,6 +364,21 @@ def r2_components(ctx, g, handlers):
                   f'on every path the grammar allows, the barline text is "=" / "==" followed by pieces of the cell as written ({n_tok} paths)',
                   f'the barline token can receive the text {sorted(bad_lits)[:3]} that is not a piece of the cell: a barline type is '
                   f'silently replaced by another spelling on export')
+    # a hidden token is written as a placeholder: the listener hides barlines (the `-` of `=1-`) and nothing else - a note or rest
+    # that is marked hidden is exported as `.` and its line may disappear
+    for hf in {id(h_): h_ for hs_ in handlers.values() for h_ in hs_.values()}.values():
+        pass
+    lst_mod = ctx.prog.module(N.LISTENER)
+    for f_ in ctx.prog.all_functions():
+        if f_.module is not lst_mod or isinstance(f_.node, ast.Lambda):
+            continue
+        for n_ in walk_local(f_.node):
+            if isinstance(n_, (ast.Assign, ast.AugAssign)) and any(isinstance(t_, ast.Attribute) and t_.attr == 'hidden'
+                                                                  for t_ in (n_.targets if isinstance(n_, ast.Assign) else [n_.target])):
+                if f_.name != 'exitBarline' and not (isinstance(n_.value, ast.Constant) and n_.value.value is False):
+                    ctx.violation('R2', f'{f_.module.relpath}:{n_.lineno}', f_.qualname, 'non-barline-token-hidden',
+                                  f'`{src(n_)[:70]}` hides a token that is not a barline: the exporter writes `.` for a hidden token, so the '
+                                  f'note / rest loses its duration, pitch and signifiers, and a line of such cells is dropped')
     # ... and the barline token stores that text as it is (a re-spelling inside the constructor is the same rewrite)
     shared.check_token_ctors_verbatim(ctx, 'R2', only={'BarToken'})
     # barline: pieces kept
